@@ -157,6 +157,10 @@ func (in *Interp) intrinsic(fn *ssa.Function, args []Value) (Value, bool) {
 				return bytesToSlice([]byte(strings.ToLower(string(b)))), true
 			}
 		}
+		if name == "bytes.TrimSpace" {
+			in.stub(name)
+			return in.trimSpaceBytes(args[0].(Slice)), true
+		}
 	case "bytes.HasSuffix":
 		in.stub(name)
 		sx, px := args[0].(Slice), args[1].(Slice)
@@ -1059,7 +1063,7 @@ func (in *Interp) sprintf(f Str, args Slice) string {
 func (in *Interp) sprintfStr(f Str, args Slice) Str {
 	fs, ok := f.concrete()
 	if !ok {
-		return mkStr("<fmt>")
+		return in.placeholder("<fmt>")
 	}
 	var out []*Term
 	ai := 0
@@ -1130,7 +1134,7 @@ func (in *Interp) fmtArg(verb byte, a Value) Str {
 					}
 				}
 			}
-			return mkStr("<obj>")
+			return in.placeholder("<obj>")
 		}
 	}
 	switch x := v.(type) {
@@ -1142,28 +1146,69 @@ func (in *Interp) fmtArg(verb byte, a Value) Str {
 			for i, e := range x {
 				t, ok := e.(*Term)
 				if !ok || t.w != 8 {
-					return mkStr("<slice>")
+					return in.placeholder("<slice>")
 				}
 				r.b[i] = t
 			}
 			return r
 		}
-		return mkStr("<slice>")
+		return in.placeholder("<slice>")
 	case *Term:
 		if x.w == 0 {
 			if x.isC() {
 				return mkStr(strconv.FormatBool(x.c == 1))
 			}
-			return mkStr("<bool>")
+			return in.placeholder("<bool>")
 		}
 		if verb == 'd' || verb == 'v' {
 			if x.isC() {
 				return mkStr(strconv.FormatInt(x.sval(), 10))
 			}
-			return mkStr("<int>")
+			// symbolic integer: the decimal-digit model (signedness is not visible here; the
+			// library formats int values only)
+			return in.fmtInt(x, true)
 		}
 	}
-	return mkStr("<" + string(verb) + ">")
+	return in.placeholder("<" + string(verb) + ">")
+}
+
+// placeholder: text standing for a value the formatting model does not render. Every use gets a
+// distinct text, so two such values never compare equal by accident.
+func (in *Interp) placeholder(kind string) Str {
+	in.phN++
+	return mkStr(kind + "#" + strconv.Itoa(in.phN))
+}
+
+
+// trimSpaceBytes: bytes.TrimSpace over symbolic bytes - ASCII white space, forks on the bytes at both
+// ends (same bound as strings.TrimSpace: non-ASCII contents end the path as assumed away).
+func (in *Interp) trimSpaceBytes(sl Slice) Value {
+	isSp := func(v Value) *Term {
+		b := v.(*Term)
+		r := B(false)
+		for _, c := range " \t\n\v\f\r" {
+			r = Or(r, Bin("=", b, C(8, uint64(c))))
+		}
+		return r
+	}
+	lo, hi := 0, len(sl)
+	for lo < hi && in.ex.decide(isSp(sl[lo])) {
+		lo++
+	}
+	for hi > lo && in.ex.decide(isSp(sl[hi-1])) {
+		hi--
+	}
+	for _, v := range sl[lo:hi] {
+		if b := v.(*Term); !b.isC() {
+			if in.ex.decide(Bin("bvule", C(8, 0x80), b)) {
+				panic(pathEnd{"assume-false"})
+			}
+		}
+	}
+	if lo == hi {
+		return Slice(nil)
+	}
+	return sl[lo:hi:hi]
 }
 
 var zzverifPath = "github.com/b2broker/simplefix-go/zzverif"
